@@ -7,7 +7,9 @@ require (
 	github.com/fatih/color v1.15.0
 	github.com/sboehler/knut v0.0.0
 	github.com/shopspring/decimal v1.3.1
+	github.com/sourcegraph/conc v0.3.0
 	github.com/spf13/cobra v1.7.0
+	golang.org/x/sync v0.3.0
 )
 
 require (
@@ -19,11 +21,9 @@ require (
 	github.com/mattn/go-runewidth v0.0.15 // indirect
 	github.com/natefinch/atomic v1.0.1 // indirect
 	github.com/rivo/uniseg v0.4.4 // indirect
-	github.com/sourcegraph/conc v0.3.0 // indirect
 	github.com/spf13/pflag v1.0.5 // indirect
 	go.uber.org/multierr v1.11.0 // indirect
 	golang.org/x/exp v0.0.0-20230817173708-d852ddb80c63 // indirect
-	golang.org/x/sync v0.3.0 // indirect
 	golang.org/x/sys v0.11.0 // indirect
 	golang.org/x/text v0.12.0 // indirect
 	gopkg.in/yaml.v2 v2.4.0 // indirect
